@@ -513,3 +513,45 @@ def nested_evaluation_carries_scope(ctx):
                    '' if ok else 'the key spec runs in a fresh scope: S.<name>, S.globals and Vars of the enclosing call are invisible', node=a)
     ctx.require(n >= 1, 'no nested Spec(..).glom reference found (First.__init__)')
     ctx.floor(1)
+
+
+@rule('C07.17')
+def scope_lookup_shortcut_takes_names_only(ctx):
+    """the first step of an S / A expression is looked up in the scope by ``_s_first_magic`` with
+    the step's argument *as recorded*, bypassing the argument evaluation every other step gets.
+    That is sound only for steps whose recorded argument is a name by construction (attribute
+    access, a Path segment); a subscript step records an arbitrary operand -- S[T['name']] --
+    which must be evaluated first"""
+    from .c01 import model
+    from .c02 import producers
+    p = ctx.program
+    m, w = model(ctx)
+    u = m.unit
+    cfg = m.cfg
+    sm = [c for c in calls_in(u) if callee_qual(p, u, c) == 'core._s_first_magic']
+    ctx.require(len(sm) == 1, '_t_eval: the scope lookup of the first step not found (%d)' % len(sm))
+    node = cfg.node_containing(sm[0])
+    raw = set()
+    for t in cfg.nodes:
+        if t.kind != 'test' or not (node in exclusive(cfg, t, 'true') or node in exclusive(cfg, t, 'false')):
+            continue
+        for x in ast.walk(t.ast):
+            if isinstance(x, ast.Compare) and isinstance(x.left, ast.Subscript) and is_name(x.left.value, m.ops_var):
+                for c in x.comparators:
+                    for k in ast.walk(c):
+                        if isinstance(k, ast.Constant) and isinstance(k.value, str):
+                            raw.add(k.value)
+    ctx.require(raw, '_t_eval: the op codes routed to the scope lookup not found')
+    # op codes whose producer records a caller-supplied operand of any type
+    arbitrary = {}
+    for pu, code, call in producers(ctx):
+        if pu.name in ('__getattr__', '__') or pu.qualname == 'core.Path.__init__':
+            continue
+        a = call.args[w.op_index + 1] if len(call.args) > w.op_index + 1 else None
+        if a is not None and not (isinstance(a, ast.Constant)):
+            arbitrary.setdefault(code, pu.qualname)
+    bad = sorted(raw & set(arbitrary))
+    ctx.ob(not bad, u, 'only name-carrying steps take the unevaluated scope lookup: %s' % sorted(raw),
+           '' if not bad else '%s records an arbitrary operand (%s): S[<spec>] is looked up by the spec object itself' % (bad, [arbitrary[b] for b in bad]),
+           node=sm[0])
+    ctx.floor(1)
